@@ -10,7 +10,7 @@ Domain : a scratch tree  d/p1/p2/p3/p4/T/{root,root2,outside,rootx,mod}  where e
          stored at depth 0..3 as file= of <%include> <%inherit> <%namespace name=> <%namespace import=> and as the
          argument of local.get_namespace / local.get_template / local.include_file - the URI is either passed in
          through the render context (file="${context['u']}", bulk) or written literally into the calling template
-         (sampled).  Configurations: module_directory on/off, one or two roots, 7 spellings of the roots.
+         (sampled).  Configurations: module_directory on/off or a modulename_callable, one or two roots, 7 spellings of the roots.
 Oracle : TemplateLookupException (incl. subclasses)  OR  a Template whose realpath(filename) is inside realpath of
          a configured root; no rendered output / Template.source contains the marker; a sys.addaudithook hook
          (active only while mako runs) sees no open() of a file of the scratch tree outside the configured roots
@@ -38,7 +38,7 @@ RULE = (
     "has_template directly; 7 calling-template kinds (include, inherit, namespace name=, namespace import=, "
     "local.get_namespace, local.get_template, local.include_file) x caller depth 0..3 x 5 spellings of the caller's own "
     "URI, URI passed dynamically (quick: every URI x every depth, kind rotating; thorough: x every kind) or written "
-    "literally into the caller (strided sample + hypothesis). Configurations: module_directory on/off x one/two roots "
+    "literally into the caller (strided sample + hypothesis). Configurations: module_directory on/off/modulename_callable x one/two roots "
     "x root spellings {plain, trailing /, /./ and /., x/../ and sub/.., relative ./root/, cwd '.', // prefix} (quick: "
     "4 of the 28 for the full sweep and 3 more for the families, thorough: all 28). non-trivial = the URI contains '..', a backslash or a doubled/leading separator "
     "AND a naive join+normpath of it (raw, backslash-mapped, leading-separator-stripped) against a root or the "
@@ -187,6 +187,18 @@ def _install_hook():
         _A["installed"] = True
 
 
+class _Modname:
+    """modulename_callable: one module file per (filename, uri) inside the module directory"""
+
+    def __init__(self, moddir):
+        self.moddir = moddir
+
+    def __call__(self, filename, uri):
+        import hashlib
+
+        return os.path.join(self.moddir, "m_%s.py" % hashlib.md5(("%s\0%s" % (filename, uri)).encode("utf-8", "replace")).hexdigest())
+
+
 class Env:
     """One scratch tree + lookups for one configuration."""
 
@@ -206,7 +218,11 @@ class Env:
             self._build()
             dirs = [self._spell_root("root")] + ([self._spell_root("root2")] if self.two else [])
             self.dirs = dirs
+            # "mod": False | True (module_directory) | "callable" (modulename_callable placing modules in T/mod)
             self.moddir = os.path.join(self.T, "mod") if cfg.get("mod") else None
+            self.lookup_kw = {"module_directory": self.moddir}
+            if cfg.get("mod") == "callable":
+                self.lookup_kw = {"modulename_callable": _Modname(self.moddir)}
             if self.spell in ("relative", "cwd"):
                 self.oldcwd = os.getcwd()
                 os.chdir(self.T if self.spell == "relative" else os.path.join(self.T, "root"))
@@ -214,7 +230,7 @@ class Env:
             self.allow_w = (os.path.join(self.T, "mod"),) if self.moddir else ()
             self.allow_r = tuple(self.roots) + self.allow_w
             self.events = []
-            mk = lambda: TemplateLookup(directories=list(dirs), module_directory=self.moddir)
+            mk = lambda: TemplateLookup(directories=list(dirs), **self.lookup_kw)
             self.Lg, self.Lh, self.Lc = mk(), mk(), mk()
             self.callers = {}
             self.nlit = 0
@@ -315,7 +331,7 @@ class Env:
         probe = "sub\\..//.\\a.html\\"
         for kind in KINDS:
             for literal in (False, True):
-                L = TemplateLookup(directories=list(self.dirs), module_directory=self.moddir)
+                L = TemplateLookup(directories=list(self.dirs), **self.lookup_kw)
                 got = []
                 orig = L.adjust_uri
                 L.adjust_uri = lambda uri, rel, orig=orig, got=got: (got.append(uri), orig(uri, rel))[1]
@@ -798,7 +814,8 @@ def case_strategy():
                   st.sampled_from(KINDS), st.integers(0, 3), st.sampled_from([0, 0, 1, 2, 3, 4]), st.booleans()),
     )
     step = st.builds(lambda u, r: dict(u, **r), uri, route)
-    cfg = st.builds(lambda s, m, t: {"spell": s, "mod": m, "two": t}, st.sampled_from(SPELLS), st.booleans(), st.booleans())
+    cfg = st.builds(lambda s, m, t: {"spell": s, "mod": m, "two": t}, st.sampled_from(SPELLS),
+                    st.sampled_from([False, True, True, "callable"]), st.booleans())
     return st.builds(lambda c, s: {"cfg": c, "steps": s}, cfg, st.lists(step, min_size=1, max_size=4))
 
 
@@ -820,7 +837,7 @@ SHARDS = {"sweep": shard_sweep}
 
 QUICK_CFGS = [  # direct sweep in the quick tier
     {"spell": "plain", "mod": True, "two": False},
-    {"spell": "trailing", "mod": True, "two": True},
+    {"spell": "trailing", "mod": "callable", "two": True},
     {"spell": "relative", "mod": False, "two": False},
     {"spell": "cwd", "mod": False, "two": True},
 ]
@@ -834,7 +851,7 @@ SECOND_CFG = {"spell": "trailing", "mod": False, "two": True}
 
 
 def all_cfgs():
-    return [{"spell": s, "mod": m, "two": t} for s in SPELLS for m in (True, False) for t in (False, True)]
+    return [{"spell": s, "mod": m, "two": t} for s in SPELLS for m in (True, False, "callable") for t in (False, True)]
 
 
 def _sweep_tasks(cfg, nmax, routes, split=1, **extra):
